@@ -10,6 +10,9 @@ package dsx
 //
 //	ZB:<trigger>:<event>     trigger  X<k>=<reason> | P<k> | R<k>=<status>=<d><t>     makes the proxy give attempt k up for a retry
 //	                         event    TM<code> TMm<code> TMs<code> DR CC GT GSm GSs HG PFo PFc L<d><t>
+//	                                  DS  the client leaves while the wake-up is INSIDE the upstream send of attempt k+1 (requests with
+//	                                      body / trailers: the worker is held in the sender call that completes the request,
+//	                                      px.Fixture.ArmUpHold): processError of the Retry phase cleans a stream whose new attempt is live
 //	ZS<k>:<code>:<d><t>:<w|f|h>:<reason>   head of a streamed response of attempt k, then the reset of its open stream with the
 //	                         worker held before it consumed the wake-up (w), before UpRecvHeader (h); f = inside UpFilter (kind upf)
 
@@ -72,6 +75,9 @@ func RunBO(f *px.Fixture, ex *px.Exchange, c Cfg, tok string, gdeadline time.Dur
 		return res
 	}
 	a := as[k]
+	if ev == "DS" {
+		return runBODS(f, ex, c, trig, a, k)
+	}
 	g := f.ArmGate(boSite(ev), 0)
 	defer f.ForgetGates()
 	t0 := time.Now()
@@ -187,4 +193,37 @@ func RunSR(f *px.Fixture, ex *px.Exchange, tok string) (held bool) {
 	a.Reset(p[4])
 	g.Release()
 	return held
+}
+
+// runBODS: the trigger, then the client's reset while the worker is inside the upstream sender call that completes the
+// request of attempt k+1 (doRetry after its sleep), then the call returns.
+func runBODS(f *px.Fixture, ex *px.Exchange, c Cfg, trig string, a *px.Attempt, k int) BOResult {
+	var res BOResult
+	if !c.Data && !c.Trailers {
+		res.Skewed = true
+		return res
+	}
+	f.ArmUpHold(k + 1)
+	defer f.ReleaseUp()
+	switch trig[0] {
+	case 'X':
+		q := strings.SplitN(trig, "=", 2)
+		a.Reset(q[1])
+	case 'R':
+		q := strings.Split(trig, "=")
+		var st int
+		fmt.Sscan(q[1], &st)
+		rh, rb, rt := px.AnswerOf(k, q[2][0] == '1', q[2][1] == '1')
+		a.Respond(st, rh, rb, rt)
+	default:
+		res.Skewed = true
+		return res
+	}
+	res.Held = f.WaitUpHeld(45 * time.Millisecond) // beyond doRetry's 10 ms sleep
+	if !res.Held {
+		ex.WaitQuiescentFor(6 * time.Millisecond)
+	}
+	ex.DownstreamReset()
+	f.ReleaseUp()
+	return res
 }
